@@ -329,7 +329,7 @@ func runC04(tier string, seed uint64) {
 				for _, d := range []string{"", "/", "b"} {
 					bad := d != "" && strings.HasPrefix(p, d)
 					for _, k := range keys {
-						if d != "" && (strings.HasPrefix(k, d) || strings.HasSuffix(k, d)) {
+						if d != "" && strings.HasPrefix(k, d) { // a key may end with the delimiter (next to keys below it); one that begins with it is known finding D32
 							bad = true
 						}
 					}
